@@ -207,6 +207,16 @@ class QueryPlanner:
         # projects = set()
         integrations = set()
 
+        # names of common table expressions are not tables of an integration
+        cte_names = set()
+
+        def find_cte_names(node, **kwargs):
+            if isinstance(node, Select) and node.cte:
+                for cte in node.cte:
+                    cte_names.add(cte.name.parts[-1])
+
+        query_traversal(query, find_cte_names)
+
         def find_objects(node, is_table, **kwargs):
             if isinstance(node, Function):
                 if node.namespace is not None or node.op.lower() in ('llm',):
@@ -214,6 +224,9 @@ class QueryPlanner:
 
             if is_table:
                 if isinstance(node, ast.Identifier):
+                    if len(node.parts) == 1 and node.parts[0] in cte_names:
+                        return
+
                     integration, _ = self.resolve_database_table(node)
 
                     if self.is_predictor(node):
